@@ -324,72 +324,11 @@ impl M {
 }
 
 // ------------------------------------------------------------------------------------------ the specification (oracle)
-struct PSpec {
-    name: &'static str,
-    init: &'static str,
-    /// state class, number of payload fields
-    states: &'static [(&'static str, usize)],
-    /// message class, number of payload fields
-    msgs: &'static [(&'static str, usize)],
-    /// (state, message, successor, carried message fields)
-    trans: &'static [(&'static str, &'static str, &'static str, &'static [usize])],
-}
-
-/// DESIGN.md Appendix A (Ouroboros network spec, CIP-164), in the vocabulary of the Rust enums.
-const SPEC: &[PSpec] = &[
-    PSpec { name: "handshake", init: "Propose",
-        states: &[("Propose", 0), ("Confirm", 1), ("Done", 1)],
-        msgs: &[("Propose", 1), ("Accept", 2), ("Refuse", 1), ("QueryReply", 1)],
-        trans: &[("Propose", "Propose", "Confirm", &[0]), ("Confirm", "Accept", "Done", &[0, 1]),
-                 ("Confirm", "Refuse", "Done", &[0]), ("Confirm", "QueryReply", "Done", &[0])] },
-    PSpec { name: "chainsync", init: "Idle",
-        states: &[("Idle", 1), ("CanAwait", 0), ("MustReply", 0), ("Intersect", 1), ("Done", 0)],
-        msgs: &[("RequestNext", 0), ("AwaitReply", 0), ("RollForward", 2), ("RollBackward", 2), ("FindIntersect", 1),
-                ("IntersectFound", 2), ("IntersectNotFound", 1), ("Done", 0)],
-        trans: &[("Idle", "RequestNext", "CanAwait", &[]), ("Idle", "FindIntersect", "Intersect", &[0]), ("Idle", "Done", "Done", &[]),
-                 ("CanAwait", "AwaitReply", "MustReply", &[]), ("CanAwait", "RollForward", "Idle", &[0, 1]),
-                 ("CanAwait", "RollBackward", "Idle", &[0, 1]), ("MustReply", "RollForward", "Idle", &[0, 1]),
-                 ("MustReply", "RollBackward", "Idle", &[0, 1]), ("Intersect", "IntersectFound", "Idle", &[0, 1]),
-                 ("Intersect", "IntersectNotFound", "Idle", &[0])] },
-    PSpec { name: "blockfetch", init: "Idle",
-        states: &[("Idle", 0), ("Busy", 1), ("Streaming", 1), ("Done", 0)],
-        msgs: &[("RequestRange", 1), ("ClientDone", 0), ("StartBatch", 0), ("NoBlocks", 0), ("Block", 1), ("BatchDone", 0)],
-        trans: &[("Idle", "RequestRange", "Busy", &[0]), ("Idle", "ClientDone", "Done", &[]), ("Busy", "StartBatch", "Streaming", &[]),
-                 ("Busy", "NoBlocks", "Idle", &[]), ("Streaming", "Block", "Streaming", &[0]), ("Streaming", "BatchDone", "Idle", &[])] },
-    PSpec { name: "txsubmission", init: "Init",
-        states: &[("Init", 0), ("Idle", 0), ("TxIdsNonBlocking", 0), ("TxIdsBlocking", 0), ("Txs", 1), ("Done", 0)],
-        msgs: &[("Init", 0), ("RequestTxIds(true)", 3), ("RequestTxIds(false)", 3), ("ReplyTxIds", 1), ("RequestTxs", 1),
-                ("ReplyTxs", 1), ("Done", 0)],
-        trans: &[("Init", "Init", "Idle", &[]), ("Idle", "RequestTxIds(true)", "TxIdsBlocking", &[]),
-                 ("Idle", "RequestTxIds(false)", "TxIdsNonBlocking", &[]), ("Idle", "RequestTxs", "Txs", &[]),
-                 ("TxIdsBlocking", "ReplyTxIds", "Idle", &[]), ("TxIdsBlocking", "Done", "Done", &[]),
-                 ("TxIdsNonBlocking", "ReplyTxIds", "Idle", &[]), ("Txs", "ReplyTxs", "Idle", &[])] },
-    PSpec { name: "keepalive", init: "Client",
-        states: &[("Client", 1), ("Server", 1), ("Done", 0)],
-        msgs: &[("KeepAlive", 1), ("ResponseKeepAlive", 1), ("Done", 0)],
-        trans: &[("Client", "KeepAlive", "Server", &[0]), ("Client", "Done", "Done", &[]), ("Server", "ResponseKeepAlive", "Client", &[0])] },
-    PSpec { name: "peersharing", init: "Idle",
-        states: &[("Idle", 1), ("Busy", 1), ("Done", 0)],
-        msgs: &[("ShareRequest", 1), ("SharePeers", 1), ("Done", 0)],
-        trans: &[("Idle", "ShareRequest", "Busy", &[0]), ("Idle", "Done", "Done", &[]), ("Busy", "SharePeers", "Idle", &[0])] },
-    PSpec { name: "leiosnotify", init: "Idle",
-        states: &[("Idle", 1), ("Busy", 0), ("Done", 0)],
-        msgs: &[("RequestNext", 0), ("BlockAnnouncement", 1), ("BlockOffer", 2), ("BlockTxsOffer", 1), ("Votes", 1), ("Done", 0)],
-        trans: &[("Idle", "RequestNext", "Busy", &[]), ("Idle", "Done", "Done", &[]), ("Busy", "BlockAnnouncement", "Idle", &[0]),
-                 ("Busy", "BlockOffer", "Idle", &[0, 1]), ("Busy", "BlockTxsOffer", "Idle", &[0]), ("Busy", "Votes", "Idle", &[0])] },
-    PSpec { name: "leiosfetch", init: "Idle",
-        states: &[("Idle", 1), ("AwaitingBlock", 1), ("AwaitingBlockTxs", 2), ("Done", 0)],
-        msgs: &[("BlockRequest", 1), ("Block", 1), ("BlockTxsRequest", 2), ("BlockTxs", 3), ("Done", 0)],
-        trans: &[("Idle", "BlockRequest", "AwaitingBlock", &[0]), ("Idle", "BlockTxsRequest", "AwaitingBlockTxs", &[0, 1]),
-                 ("Idle", "Done", "Done", &[]), ("AwaitingBlock", "Block", "Idle", &[0]), ("AwaitingBlockTxs", "BlockTxs", "Idle", &[2])] },
-];
+#[path = "../fixtures/fsm_spec.rs"]
+mod fsm_spec;
+use fsm_spec::{PSpec, SPEC_N2 as SPEC};
 
 fn spec_of(name: &str) -> Option<&'static PSpec> { SPEC.iter().find(|s| s.name == name) }
-impl PSpec {
-    fn step(&self, st: &str, msg: &str) -> Option<(&'static str, &'static [usize])> {
-        self.trans.iter().find(|r| r.0 == st && r.1 == msg).map(|r| (r.2, r.3))
-    }
-}
 
 // ------------------------------------------------------------------------------------------ generator
 fn toks(g: &mut Gen, n: usize, lo: u64) -> String {
